@@ -158,17 +158,11 @@ class Exec(object):
             return self.atom_const(v)
         raise Unsupported('constant %r' % (v,))
 
-    _atom_consts = {}
-
     def atom_const(self, s):
-        """a string literal used as a name: a distinct constant per literal"""
-        if s not in Exec._atom_consts:
-            Exec._atom_consts[s] = z3.Const('lit_' + ''.join(c if c.isalnum() else '_%x_' % ord(c) for c in s), Atom)
-        return SV(ATOM, Exec._atom_consts[s])
+        return SV(ATOM, lit(s))
 
     def distinct_literals(self):
-        cs = list(Exec._atom_consts.values())
-        return [z3.Distinct(*cs)] if len(cs) > 1 else []
+        return distinct_literals()
 
     def lookup(self, p, name):
         if name in p.alias:
@@ -213,7 +207,7 @@ class Exec(object):
         return self.list_lit(vs[0].t, vs)
 
     def list_lit(self, et, vs):
-        t = LIST(et); arr = z3.K(IntSort_(), self.default_of(et))
+        t = LIST(et); arr = fresh_z('arr0', z3.ArraySort(z3.IntSort(), sort_of(et)))
         for i, v in enumerate(vs): arr = Store(arr, i, v.z)
         return mk_list(t, IntVal(len(vs)), arr)
 
@@ -390,7 +384,7 @@ class Exec(object):
         vt, d = mt.args[1], mt.args[2]
         if d == 'set': return empty_set(vt.args[0])
         if d == 'zero': return SV(REGEXP, RX.Zero)
-        if d == 'list': return mk_list(vt, IntVal(0), z3.K(z3.IntSort(), self.default_of(vt.args[0])))
+        if d == 'list': return mk_list(vt, IntVal(0), fresh_z('arr0', z3.ArraySort(z3.IntSort(), sort_of(vt.args[0]))))
         raise Unsupported('default %s' % d)
 
     def slice(self, p, o, sl, e):
@@ -435,7 +429,7 @@ class Exec(object):
         if kind == 'word':
             w = it[1]; i = fresh_z('i', z3.IntSort())
             self.bind_target(p, target, SV(ATOM, T.at(w.z, i)), env_upd)
-            return [i], And(0 <= i, i < T.wlen(w.z)), env_upd, None
+            return [i], And(0 <= i, i < T.wlen(w.z)), env_upd, ('range', IntVal(0), T.wlen(w.z), i)
         if kind == 'items':
             m = it[1]; k = fresh('k', m.t.args[0])
             self.bind_target(p, target, mk_tup(k, SV(m.t.args[1], Select(map_val(m), k.z))), env_upd)
